@@ -275,6 +275,11 @@ def markPV (best : Option P) : List P → List P
     | none => m :: ms
     | some b => if g.lastMove m = g.lastMove b then g.withOh m Gen.posInf :: ms else m :: markPV best ms
 
+/-- (fix 3ef6069) in the first iteration a move to fall back on — the first move of the ordering —
+    is handed over before the first evaluation starts -/
+def sendFallback (curDepth : Nat) (first : P) : M (SS P O) Unit :=
+  if curDepth = 1 then report (.sent first) else pure ()
+
 /-- iterations `curDepth, curDepth+1, … < MAX_DEPTH` of `get_best_move` -/
 def iterate (fuel : Nat) (root : P) : Nat → Nat → List P → Option P → M (SS P O) Unit
   | 0, _, _, _ => pure ()
@@ -285,6 +290,7 @@ def iterate (fuel : Nat) (root : P) : Nat → Nat → List P → Option P → M 
     match moves with
     | [] => iterate fuel root n (curDepth + 1) (markPV g best (g.gen root .all)) best
     | first :: _ =>
+      sendFallback curDepth first
       match (← rootLoop g ord fuel curDepth first moves (-Gen.posInf) best) with
       | none => return ()
       | some (_, best) =>
